@@ -167,7 +167,7 @@ def verifier_pieces(verify_fns, verify_stubs, hoist=()):
 UNITS["verify"] = {
     "prelude": PRELUDE_ALL,
     "_hoist_note": "receivers of the two Iterator::any calls of the consistency check are bound to locals (R-HOISTARGS, receiver form)",
-    "contracts": ["ctors.vc", "gens.vc", "transcripts.vc", "nonce.vc", "consistency.vc", "batch.vc", "verify_safety.vc", "verify_transcript.vc", "verify_mask.vc"],
+    "contracts": ["ctors.vc", "gens.vc", "transcripts.vc", "nonce.vc", "consistency.vc", "batch.vc", "verify_safety.vc", "verify_transcript.vc", "verify_mask.vc", "verify_refusal.vc"],
     "pieces": verifier_pieces(["verify_batch", "verify", "verify_statements_and_generators_consistency", "a_decompressed", "a1_decompressed",
                                "b_decompressed", "li_decompressed", "ri_decompressed"], [], hoist=["verify_statements_and_generators_consistency:v_any@recv"]),
     "safety": {"*": ["C16"]},
